@@ -29,6 +29,7 @@ import (
 
 	pb "google.golang.org/protobuf/proto"
 
+	"github.com/oxia-db/oxia/common/constant"
 	"github.com/oxia-db/oxia/common/hash"
 	commonrpc "github.com/oxia-db/oxia/common/rpc"
 	"github.com/oxia-db/oxia/coordinator/model"
@@ -52,6 +53,7 @@ type cfgHarness struct {
 	configAt  []time.Duration              // when each of them was installed
 	prev      *model.ClusterStatus
 	idsSeen   map[int64]string // shard id -> namespace it was first seen in
+	gaveUp    map[string]bool  // client -> a server answered its GetShardAssignments with "namespace not found"
 	termOf    map[int64]int64  // shard id -> highest term seen in a stored status (C05: the durable term never goes back)
 	termSent  map[int64]int64  // shard id -> highest term the coordinator has sent in a NewTerm request
 	idsGone   map[int64]bool
@@ -388,6 +390,15 @@ func (h *cfgHarness) tap(t *TapMsg) {
 		}
 		return
 	}
+	if !t.Dropped && t.Kind == "status" && !t.ToServer && strings.HasSuffix(t.Method, "/GetShardAssignments") &&
+		t.Status != nil && t.Status.Code() == constant.CodeNamespaceNotFound {
+		// the server the client asked does not know the namespace (yet, or any more): the client
+		// library does not retry this answer, its shard manager is dead from here on
+		h.mu.Lock()
+		h.gaveUp[t.Dst] = true
+		h.mu.Unlock()
+		return
+	}
 	if t.Dropped || t.Kind != "data" || len(t.Payload) == 0 {
 		return
 	}
@@ -480,6 +491,12 @@ func (h *cfgHarness) checkClients(where string) {
 				h.r.Count("clients_of_deleted_namespace", 1)
 				continue
 			}
+			if len(got) == 0 && h.hasGivenUp(c.name) {
+				// same end state, reached because the server it asked had not heard of the (re-created)
+				// namespace yet: it holds no shard at all and routes nothing
+				h.r.Count("clients_refused_namespace_not_found", 1)
+				continue
+			}
 			h.fail("C18", "client-shard-set-differs", "%s: client %s (namespace %q) knows shards %v, published are %s (stale: %v, missing: %v); config history: %s", where, c.name, c.ns, got, describeRanges(rs), extra, missing, lastN(h.prog, 8))
 			return
 		}
@@ -510,6 +527,12 @@ func (h *cfgHarness) checkClients(where string) {
 	}
 }
 
+func (h *cfgHarness) hasGivenUp(client string) bool {
+	h.mu.Lock()
+	defer h.mu.Unlock()
+	return h.gaveUp[client]
+}
+
 func (h *cfgHarness) epochOf(ns string) int {
 	h.mu.Lock()
 	defer h.mu.Unlock()
@@ -537,7 +560,7 @@ func runConfigHistory(r *Run, prop string) {
 	w := NewWorld(r, defaultNetCfg(g))
 	defer w.Close()
 	wal.DefaultFactoryOptions.SegmentSize = 32 * 1024 // dozens of shard replicas are created per run
-	h := &cfgHarness{r: r, w: w, g: g, prop: prop, labels: map[string]map[string]string{}, idsSeen: map[int64]string{}, termOf: map[int64]int64{}, termSent: map[int64]int64{}, idsGone: map[int64]bool{},
+	h := &cfgHarness{r: r, w: w, g: g, prop: prop, labels: map[string]map[string]string{}, idsSeen: map[int64]string{}, termOf: map[int64]int64{}, gaveUp: map[string]bool{}, termSent: map[int64]int64{}, idsGone: map[int64]bool{},
 		maxID: -1, nsEpoch: map[string]int{}, published: map[string][]hashRng{}}
 	for i := 1; i <= 6; i++ {
 		h.pool = append(h.pool, fmt.Sprintf("n%d", i))
